@@ -17,7 +17,9 @@
 (*        the nested / flattened observation, number of leaves >= size     *)
 (*   [ev |-> "Episode", od, ad]  structural digests of the observation and *)
 (*        action space at the start of an episode                          *)
-(*   [ev |-> "Raised", where, exc]  repository code raised: no observation *)
+(*   [ev |-> "Raised", where, exc, inObs]  repository code raised, so there *)
+(*        is no observation: C02 admits none; C09 only objects when the    *)
+(*        observation code itself raised (inObs)                           *)
 (* One trace = one leaf group at one step (so a divergence stays local);   *)
 (* only the per-environment digest traces have several events.             *)
 EXTENDS ObsEncoding, TLCExt, Json, IOUtils
@@ -65,13 +67,13 @@ Failing(e) ==
       [] e.ev = "Leaf" /\ Cfg.prop = "C02" -> SpaceFailing(e) \cup InFailing(e)
       [] e.ev = "Step"    -> StepFailing(e)
       [] e.ev = "Episode" -> EpisodeFailing(e)
-      [] e.ev = "Raised"  -> {"NoRaise_" \o e.where}
+      [] e.ev = "Raised"  -> IF Cfg.prop = "C09" /\ ~e.inObs THEN {} ELSE {"NoRaise_" \o e.where}
       [] OTHER -> {"UnknownEvent"}
 
 Step(e) ==
     CASE e.ev = "Episode" -> /\ od0' = IF od0 = "" THEN e.od ELSE od0
                              /\ ad0' = IF ad0 = "" THEN e.ad ELSE ad0
-      [] e.ev \in {"Leaf", "Step"} -> UNCHANGED <<od0, ad0>>
+      [] e.ev \in {"Leaf", "Step", "Raised"} -> UNCHANGED <<od0, ad0>>
       [] OTHER -> FALSE
 
 TraceInit ==
